@@ -54,19 +54,30 @@ pub struct Exec {
     pub sched_ok: bool,
 }
 
+thread_local! {
+    /// return values of `Runner::run` (None = the run failed), in order
+    pub static RETURNS: std::cell::RefCell<Vec<(Option<usize>, usize)>> = const { std::cell::RefCell::new(Vec::new()) };
+}
+
 fn run_once<S: Scheduler + 'static>(p: &Arc<Prog>, sched: S, cfg: shuttle::Config) -> Vec<Exec> {
     let runner = Runner::new(Recorder::new(sched, p.id), cfg);
     let pr = Arc::clone(p);
     crate::IN_EXEC.store(true, Ordering::Relaxed);
-    let res = panic::catch_unwind(panic::AssertUnwindSafe(|| {
-        runner.run(move || interp::run_main(Arc::clone(&pr)));
-    }));
+    let res = panic::catch_unwind(panic::AssertUnwindSafe(|| runner.run(move || interp::run_main(Arc::clone(&pr)))));
     crate::IN_EXEC.store(false, Ordering::Relaxed);
-    match res {
-        Ok(()) => rec::finish_exec_quiet(),
-        Err(e) => rec::finish_exec(crate::end_event_for_panic(&crate::payload_msg(&e))),
-    }
-    rec::take_done_full().into_iter().map(|(events, sched, ok)| Exec { events, sched, sched_ok: ok }).collect()
+    let ret = match res {
+        Ok(n) => {
+            rec::finish_exec_quiet();
+            Some(n)
+        }
+        Err(e) => {
+            rec::finish_exec(crate::end_event_for_panic(&crate::payload_msg(&e)));
+            None
+        }
+    };
+    let out: Vec<Exec> = rec::take_done_full().into_iter().map(|(events, sched, ok)| Exec { events, sched, sched_ok: ok }).collect();
+    RETURNS.with(|r| r.borrow_mut().push((ret, out.len())));
+    out
 }
 
 /// All executions a scheduler produces for the program (continuing after failing ones).
@@ -74,6 +85,7 @@ pub fn run_all(p: &Arc<Prog>, s: Box<dyn Scheduler + Send>, cfg: &shuttle::Confi
     let shared = Shared::new(s);
     let mut out = vec![];
     rec::reset_log();
+    RETURNS.with(|r| r.borrow_mut().clear());
     let mut guard = 0;
     while !shared.exhausted.load(Ordering::SeqCst) && out.len() < max_execs && guard < 10 * max_execs + 10 {
         guard += 1;
@@ -114,8 +126,23 @@ pub fn sample_program(p: &Prog, iters: usize, seed: u64, outdir: &str, idx: usiz
     let mut counts = serde_json::Map::new();
     let mut replays = 0u64;
     let mut failing = 0u64;
+    // small iteration budgets: the body runs exactly as often as the budget allows
+    let mut budgets: Vec<Value> = vec![];
+    for b in [0usize, 1, 2, 5] {
+        for (kind, s) in [
+            ("random", Box::new(RandomScheduler::new_from_seed(seed, b)) as Box<dyn Scheduler + Send>),
+            ("urw", Box::new(UrwRandomScheduler::new_from_seed(seed, b))),
+            ("dfs", Box::new(DfsScheduler::new(Some(b), true))),
+        ] {
+            let ex = run_all(&prog, s, &cfg, b + 3);
+            let rets: Vec<(Option<usize>, usize)> = RETURNS.with(|r| r.borrow().clone());
+            budgets.push(json!({"sched": kind, "budget": b, "execs": ex.len(), "returns": rets}));
+        }
+    }
     for (kind, s) in kinds {
         let execs = run_all(&prog, s, &cfg, iters + 2);
+        let rets: Vec<(Option<usize>, usize)> = RETURNS.with(|r| r.borrow().clone());
+        budgets.push(json!({"sched": kind, "budget": if kind == "rr" { 1 } else { iters }, "execs": execs.len(), "returns": rets}));
         counts.insert(kind.to_string(), json!(execs.len()));
         for (i, ex) in execs.iter().enumerate() {
             if !ex.sched_ok && mismatches.len() < 20 {
@@ -198,6 +225,6 @@ pub fn sample_program(p: &Prog, iters: usize, seed: u64, outdir: &str, idx: usiz
         }
     }
     let meta = json!({"prog": p.id, "execs": all.len(), "by_scheduler": counts, "replays": replays, "failing": failing,
-                      "und": und_verdict, "mismatches": mismatches, "capped": false, "nondet": null, "outcomes": []});
+                      "und": und_verdict, "budgets": budgets, "mismatches": mismatches, "capped": false, "nondet": null, "outcomes": []});
     (all, meta)
 }
